@@ -174,6 +174,28 @@ func (pn *verifControlC13GoodFresh) verifControlC13Store(p *[]float64) {
 	pn.cur = p
 }
 
+// must fire FRESH-1 (read side): the message is encoded into a buffer the parameter keeps
+type verifControlC13BadScratch struct {
+	File
+	scratch []byte
+}
+
+func (pn *verifControlC13BadScratch) ToMessage() []byte {
+	pn.scratch = append(pn.scratch[:0], pn.appliedProfile...)
+	return pn.scratch
+}
+
+// must stay silent: a copy made for this reader
+type verifControlC13GoodCopy struct{ File }
+
+func (pn *verifControlC13GoodCopy) ToMessage() []byte {
+	out, err := json.Marshal(pn.appliedProfile)
+	if err != nil {
+		return append([]byte(nil), pn.appliedProfile...)
+	}
+	return out
+}
+
 // must fire VIS-1: success return that skips the store, compared against a stale notion of the value
 type verifControlC13BadSkip struct{ File }
 
@@ -184,6 +206,26 @@ func (pn *verifControlC13BadSkip) ApplyMessage(msg []byte) (bool, error) {
 	pn.version++
 	pn.appliedProfile = append([]byte(nil), msg...)
 	return true, nil
+}
+`,
+		"nodes/zz_verif_control_c13.go": `package nodes
+
+// must fire CONC-9: evaluation fanned out from a Value() implementation of package nodes
+type verifControlC13Par[T any] struct{ in []NodeOutput[T] }
+
+func (v verifControlC13Par[T]) Value() T {
+	out := make([]T, len(v.in))
+	done := make(chan bool)
+	for i, n := range v.in {
+		go func(i int, n NodeOutput[T]) {
+			out[i] = n.Value()
+			done <- true
+		}(i, n)
+	}
+	for range v.in {
+		<-done
+	}
+	return out[0]
 }
 `,
 		"generator/zz_verif_control_c13.go": `package generator
@@ -198,6 +240,23 @@ func (as *AppServer) verifControlC13BadTwoReads(w http.ResponseWriter, name stri
 	artifact := as.app.graphInstance.Artifact(name)
 	w.Header().Set("ETag", fmt.Sprint(as.app.graphInstance.ModelVersion()))
 	artifact.Write(w)
+}
+
+type verifControlC13Cache struct {
+	slots map[string][]byte
+}
+
+var verifControlC13Shared = &verifControlC13Cache{slots: map[string][]byte{}}
+
+// must fire CONC-8: the response is served from a slot other requests fill
+func (as *AppServer) verifControlC13BadShared(w http.ResponseWriter, name string) {
+	if data, ok := verifControlC13Shared.slots[name]; ok {
+		w.Write(data)
+		return
+	}
+	artifact := as.app.graphInstance.Artifact(name)
+	verifControlC13Shared.slots[name] = []byte(artifact.Mime())
+	w.Write(verifControlC13Shared.slots[name])
 }
 
 // must stay silent: one call feeds the response
@@ -317,8 +376,11 @@ func run(c *props.Ctx) {
 	a.whoMayCall()
 	a.noCopy()
 	a.fresh1()
+	a.freshRead()
 	a.vis1()
 	a.conc6(entries)
+	a.conc8(entries)
+	a.conc9()
 	a.otherMethods(entries)
 
 	c.R.Floor("CONC-1", 5)
